@@ -109,36 +109,58 @@ func c19Run(c *Ctx, i int64) {
 			case hcOK && codeOK:
 				accepted++
 				if !ok || err != nil {
-					c.Violation("valid-header-rejected/ValidFrameHeader", fmt.Sprintf("FLG=%02x BD=%02x HC=%02x (correct) rejected: ok=%v err=%v", flg, bd, hc, ok, err), detail())
+					if !c.Over("valid-header-rejected/ValidFrameHeader") {
+						c.Violation("valid-header-rejected/ValidFrameHeader", fmt.Sprintf("FLG=%02x BD=%02x HC=%02x (correct) rejected: ok=%v err=%v", flg, bd, hc, ok, err), detail())
+					}
 				}
 				if rerr != io.EOF || rn != 0 {
-					c.Violation("valid-header-rejected/Reader", fmt.Sprintf("FLG=%02x BD=%02x HC=%02x: Reader.Read = (%d, %v), want (0, EOF)", flg, bd, hc, rn, rerr), detail())
+					if !c.Over("valid-header-rejected/Reader") {
+						c.Violation("valid-header-rejected/Reader", fmt.Sprintf("FLG=%02x BD=%02x HC=%02x: Reader.Read = (%d, %v), want (0, EOF)", flg, bd, hc, rn, rerr), detail())
+					}
 				} else if uint64(rsize) != size {
-					c.Violation("size-not-faithful", fmt.Sprintf("FLG=%02x BD=%02x: Size() = %d, content-size field %d (present=%v)", flg, bd, uint64(rsize), size, hasSize), detail())
+					if !c.Over("size-not-faithful") {
+						c.Violation("size-not-faithful", fmt.Sprintf("FLG=%02x BD=%02x: Size() = %d, content-size field %d (present=%v)", flg, bd, uint64(rsize), size, hasSize), detail())
+					}
 				}
 			case !hcOK:
 				rejHC++
 				if ok || err == nil {
-					c.Violation("bad-hc-accepted/ValidFrameHeader", fmt.Sprintf("FLG=%02x BD=%02x HC=%02x (want %02x) accepted: ok=%v err=%v", flg, bd, hc, wantHC, ok, err), detail())
+					if !c.Over("bad-hc-accepted/ValidFrameHeader") {
+						c.Violation("bad-hc-accepted/ValidFrameHeader", fmt.Sprintf("FLG=%02x BD=%02x HC=%02x (want %02x) accepted: ok=%v err=%v", flg, bd, hc, wantHC, ok, err), detail())
+					}
 				} else if !errors.Is(err, lz4.ErrInvalidHeaderChecksum) {
-					c.Violation("bad-hc-wrong-error/ValidFrameHeader", fmt.Sprintf("FLG=%02x BD=%02x HC=%02x (want %02x): error %q is not ErrInvalidHeaderChecksum", flg, bd, hc, wantHC, err), detail())
+					if !c.Over("bad-hc-wrong-error/ValidFrameHeader") {
+						c.Violation("bad-hc-wrong-error/ValidFrameHeader", fmt.Sprintf("FLG=%02x BD=%02x HC=%02x (want %02x): error %q is not ErrInvalidHeaderChecksum", flg, bd, hc, wantHC, err), detail())
+					}
 				}
 				if rerr == nil || rerr == io.EOF {
-					c.Violation("bad-hc-accepted/Reader", fmt.Sprintf("FLG=%02x BD=%02x HC=%02x (want %02x): Reader.Read = (%d, %v)", flg, bd, hc, wantHC, rn, rerr), detail())
+					if !c.Over("bad-hc-accepted/Reader") {
+						c.Violation("bad-hc-accepted/Reader", fmt.Sprintf("FLG=%02x BD=%02x HC=%02x (want %02x): Reader.Read = (%d, %v)", flg, bd, hc, wantHC, rn, rerr), detail())
+					}
 				} else if !errors.Is(rerr, lz4.ErrInvalidHeaderChecksum) {
-					c.Violation("bad-hc-wrong-error/Reader", fmt.Sprintf("FLG=%02x BD=%02x HC=%02x: Reader error %q is not ErrInvalidHeaderChecksum", flg, bd, hc, rerr), detail())
+					if !c.Over("bad-hc-wrong-error/Reader") {
+						c.Violation("bad-hc-wrong-error/Reader", fmt.Sprintf("FLG=%02x BD=%02x HC=%02x: Reader error %q is not ErrInvalidHeaderChecksum", flg, bd, hc, rerr), detail())
+					}
 				}
 			default: // correct checksum, undefined block size code
 				rejBS++
 				if ok || err == nil {
-					c.Violation("bad-blocksize-accepted/ValidFrameHeader", fmt.Sprintf("FLG=%02x BD=%02x (code %d) accepted: ok=%v err=%v", flg, bd, code, ok, err), detail())
+					if !c.Over("bad-blocksize-accepted/ValidFrameHeader") {
+						c.Violation("bad-blocksize-accepted/ValidFrameHeader", fmt.Sprintf("FLG=%02x BD=%02x (code %d) accepted: ok=%v err=%v", flg, bd, code, ok, err), detail())
+					}
 				} else if !errors.Is(err, lz4.ErrOptionInvalidBlockSize) || errors.Is(err, lz4.ErrInvalidHeaderChecksum) {
-					c.Violation("bad-blocksize-wrong-error/ValidFrameHeader", fmt.Sprintf("FLG=%02x BD=%02x (code %d): error %q is not ErrOptionInvalidBlockSize", flg, bd, code, err), detail())
+					if !c.Over("bad-blocksize-wrong-error/ValidFrameHeader") {
+						c.Violation("bad-blocksize-wrong-error/ValidFrameHeader", fmt.Sprintf("FLG=%02x BD=%02x (code %d): error %q is not ErrOptionInvalidBlockSize", flg, bd, code, err), detail())
+					}
 				}
 				if rerr == nil || rerr == io.EOF {
-					c.Violation("bad-blocksize-accepted/Reader", fmt.Sprintf("FLG=%02x BD=%02x (code %d): Reader.Read = (%d, %v)", flg, bd, code, rn, rerr), detail())
+					if !c.Over("bad-blocksize-accepted/Reader") {
+						c.Violation("bad-blocksize-accepted/Reader", fmt.Sprintf("FLG=%02x BD=%02x (code %d): Reader.Read = (%d, %v)", flg, bd, code, rn, rerr), detail())
+					}
 				} else if !errors.Is(rerr, lz4.ErrOptionInvalidBlockSize) || errors.Is(rerr, lz4.ErrInvalidHeaderChecksum) {
-					c.Violation("bad-blocksize-wrong-error/Reader", fmt.Sprintf("FLG=%02x BD=%02x (code %d): Reader error %q is not ErrOptionInvalidBlockSize", flg, bd, code, rerr), detail())
+					if !c.Over("bad-blocksize-wrong-error/Reader") {
+						c.Violation("bad-blocksize-wrong-error/Reader", fmt.Sprintf("FLG=%02x BD=%02x (code %d): Reader error %q is not ErrOptionInvalidBlockSize", flg, bd, code, rerr), detail())
+					}
 				}
 			}
 		}
@@ -183,7 +205,9 @@ func c19NonMagic(c *Ctx, i int64) {
 		}
 		tested++
 		if ok || err != nil {
-			c.Violation("non-magic/ValidFrameHeader", fmt.Sprintf("first word %08x: ValidFrameHeader = (%v, %v), want (false, nil)", w, ok, err), map[string]interface{}{"word": w})
+			if !c.Over("non-magic/ValidFrameHeader") {
+				c.Violation("non-magic/ValidFrameHeader", fmt.Sprintf("first word %08x: ValidFrameHeader = (%v, %v), want (false, nil)", w, ok, err), map[string]interface{}{"word": w})
+			}
 		}
 	}
 	c.Count("non_magic_words", tested)
